@@ -9,13 +9,14 @@ V max(w,0) V^H of the denoted Hermitian operator, relative to the ASSUMED eigh c
 """
 from qverif.symtwin.verify import E2Contract, eq, true
 from ._cfg import make_csys, DIMS, stacked, obj_state, obj_povm, obj_gate, obj_mprocess
-from .C03_e2 import n_var, empty_obj, MODS
+from .C03_e2 import n_var, empty_obj, MODS, m_count
 from .C01_all import spec_tp_viol
 
 
 def build(W, mk, kind, c_sys, m, on_para, name):
     return dict(state=lambda: obj_state(W, mk, c_sys, name, on_para), povm=lambda: obj_povm(W, mk, c_sys, m, name, on_para),
-                gate=lambda: obj_gate(W, mk, c_sys, name, on_para), mprocess=lambda: obj_mprocess(W, mk, c_sys, m, name, on_para))[kind]()
+                gate=lambda: obj_gate(W, mk, c_sys, name, on_para), mprocess=lambda: obj_mprocess(W, mk, c_sys, m_count(m), name, on_para,
+                                             shape=tuple(m) if isinstance(m, (tuple, list)) else None))[kind]()
 
 
 def flat(W, arrays):
@@ -55,6 +56,14 @@ def cfgs(tier, kinds=("state", "povm", "gate", "mprocess")):
                     out.append((s, "povm", m, on_para))
                 if "mprocess" in kinds and not (s != "1q" and m > 3):
                     out.append((s, "mprocess", m, on_para))
+    if "mprocess" in kinds:
+        # measurement processes whose outcomes carry a multi-index shape (as composition / tensor product produce them)
+        for on_para in (True, False):
+            out.append(("1q", "mprocess", (2, 2), on_para))
+            out.append(("1q", "mprocess", (3, 2), on_para))
+            if tier == "thorough":
+                out.append(("1q", "mprocess", (2, 3), on_para))
+                out.append(("1qt", "mprocess", (2, 2), on_para))
     return out
 
 
